@@ -788,6 +788,10 @@ class Peer:
 
         # CONNECTION FAILURE
         except NetworkError as network:
+            # reset first: stop() moves the FSM to IDLE, and _close() only reports
+            # the neighbor "down" to the API when it still sees the connected state
+            self._reset('closing connection', network)
+
             # Check if maximum connection attempts reached
             if not self.can_reconnect():
                 log.debug(
@@ -796,7 +800,6 @@ class Peer:
                 )
                 self.stop()
 
-            self._reset('closing connection', network)
             return
 
         # NOTIFY THE PEER OF AN ERROR
@@ -821,6 +824,11 @@ class Peer:
 
         # THE PEER NOTIFIED US OF AN ERROR
         except Notification as notification:
+            self._reset(
+                f'notification received ({notification.code},{notification.subcode})',
+                notification,
+            )
+
             # Check if maximum connection attempts reached
             if not self.can_reconnect():
                 log.debug(
@@ -829,10 +837,6 @@ class Peer:
                 )
                 self.stop()
 
-            self._reset(
-                f'notification received ({notification.code},{notification.subcode})',
-                notification,
-            )
             return
 
         # PROBLEM WRITING TO OUR FORKED PROCESSES
